@@ -48,8 +48,11 @@ def gen_history(rng, nops, mix):
             op = ug.op()
             ep = rng.choice(UPDATE_EPS)
             text = G.pr_update(op)
-            if rng.random() < 0.12:
+            k_ = rng.random()
+            if k_ < 0.12:
                 text = G.dollar(text)
+            elif k_ < 0.24:
+                text = G.with_prefix(text)
             steps.append(step("update", ep, text, {"cls": "update", "op": op, "counts": ep in ("update", "db")}))
         elif c == "reject":
             text, why = ug.rejected()
@@ -58,9 +61,15 @@ def gen_history(rng, nops, mix):
         elif c == "select":
             g = G.Gen(rng, None, ug.pool)
             q = g.select(rng.choice([1, 2]))
+            if rng.random() < 0.15:
+                # the dataset clause names a graph nothing ever created (only the frame is judged for this class)
+                q[rng.choice(["fromnamed", "from", "fromnamed"])].append(G.UNKNOWN_GRAPH)
             text = G.pr_select(q)
-            if rng.random() < 0.12:
+            k_ = rng.random()
+            if k_ < 0.12:
                 text = G.dollar(text)
+            elif k_ < 0.24:
+                text = G.with_prefix(text)
             steps.append(step("query", rng.choice(QUERY_EPS), text, {"cls": "select"}))
         elif c == "readonly":
             if rng.random() < 0.3:
